@@ -598,15 +598,52 @@ func Worker(a WorkerArgs) int {
 							break
 						}
 					}
-					if found {
-						// drop prelude scripts that are not needed
-						for i := 0; i < len(prelude); {
-							cand := append(append([]json.RawMessage(nil), prelude[:i]...), prelude[i+1:]...)
-							if pv, _ := runIsolatedHang(p, script, tmpDir, 0, cand...); pv != nil && pv.Sig == v.Sig {
-								prelude = cand
-							} else {
-								i++
+					if !found {
+						// further back: what an earlier run left in the library may be much older
+						// than the last 64 runs. The runs of this process are a function of their
+						// indices, so they are regenerated (oldest first), in growing tails.
+						for _, k := range []int{512, 4096, 32768, 131072} {
+							var cand []json.RawMessage
+							for j := idx - a.Stride; j >= a.Start && len(cand) < k; j -= a.Stride {
+								if a.Skip[j] {
+									continue
+								}
+								raw, _ := json.Marshal(ScriptFor(p, a.Tier, a.Seed, j))
+								cand = append(cand, raw)
 							}
+							for i, j := 0, len(cand)-1; i < j; i, j = i+1, j-1 {
+								cand[i], cand[j] = cand[j], cand[i]
+							}
+							atomic.AddUint64(&progress, 1)
+							if pv, _ := runIsolatedHang(p, script, tmpDir, 0, cand...); pv != nil && pv.Sig == v.Sig {
+								prelude, found = cand, true
+								break
+							}
+							if len(cand) < k {
+								break // that was the whole history of this process
+							}
+						}
+					}
+					if found {
+						// drop prelude scripts that are not needed: in halving chunks, then one by one
+						for chunk := (len(prelude) + 1) / 2; chunk >= 1; {
+							removed := false
+							for i := 0; i+chunk <= len(prelude); {
+								cand := append(append([]json.RawMessage(nil), prelude[:i]...), prelude[i+chunk:]...)
+								atomic.AddUint64(&progress, 1)
+								if pv, _ := runIsolatedHang(p, script, tmpDir, 0, cand...); pv != nil && pv.Sig == v.Sig {
+									prelude, removed = cand, true
+								} else {
+									i += chunk
+								}
+							}
+							if chunk == 1 {
+								if !removed {
+									break
+								}
+								continue
+							}
+							chunk /= 2
 						}
 						f.Viol = v
 						f.Orig, f.Min = orig, p.Size(script)
@@ -967,7 +1004,7 @@ func Check(propID, tier string) int {
 		}
 		wave = append(wave, pr)
 	}
-	fatalBudget := 40                      // confirmations of process deaths per batch
+	fatalBudget := 40 // confirmations of process deaths per batch
 	unreproduced := 0
 	confirmedDeaths := map[string]string{} // exit code + journal status + call -> confirmed signature
 	for len(wave) > 0 {
